@@ -261,10 +261,10 @@ func (x *Exec) nativeFunc(e *Env, callee *types.Func, n *ast.CallExpr) (Value, b
 		}
 		a.Len, b.Len = x.simplifyWithPC(e.st, a.Len), x.simplifyWithPC(e.st, b.Len)
 		return Scalar{x.stringEq(e, a, b), boolT}, true
-	case "math/bits.Len", "math/bits.Len64":
+	case "math/bits.Len", "math/bits.Len64", "math/bits.Len32", "math/bits.Len16", "math/bits.Len8":
 		v := e.expr(n.Args[0]).(Scalar)
 		return x.bitsLen(e, v), true
-	case "math/bits.TrailingZeros", "math/bits.TrailingZeros64":
+	case "math/bits.TrailingZeros", "math/bits.TrailingZeros64", "math/bits.TrailingZeros32", "math/bits.TrailingZeros16", "math/bits.TrailingZeros8":
 		v := e.expr(n.Args[0]).(Scalar)
 		return x.bitsTZ(e, v), true
 	}
